@@ -1017,7 +1017,7 @@ dt_strfdt(char *restrict buf, size_t bsz, const char *fmt, struct dt_dt_s that)
 			bp += __strfdt_card(bp, eo - bp, spec, &d, that);
 			if (spec.ord) {
 				bp += __ordtostr(bp, eo - bp);
-			} else if (spec.bizda) {
+			} else if (spec.bizda && bp < eo) {
 				/* don't print the b after an ordinal */
 				if (spec.ab == BIZDA_AFTER) {
 					*bp++ = 'b';
@@ -1263,7 +1263,7 @@ dt_strfdtdur(
 	/* assign and go */
 	bp = buf;
 	fp = fmt;
-	if (that.d.neg) {
+	if (that.d.neg && bsz > 1U) {
 		*bp++ = '-';
 	}
 	for (char *const eo = buf + bsz; *fp && bp < eo;) {
@@ -1275,7 +1275,7 @@ dt_strfdtdur(
 			*bp++ = *fp_sav;
 		} else if (LIKELY(!spec.rom)) {
 			bp += __strfdt_dur(bp, eo - bp, spec, &d, that);
-			if (spec.bizda) {
+			if (spec.bizda && bp < eo) {
 				/* don't print the b after an ordinal */
 				if (d.sd.flags.ab == BIZDA_AFTER) {
 					*bp++ = 'b';
